@@ -644,24 +644,34 @@ def check_landscape_plots_semantic(project: Project, rep):
         if fi is None:
             continue
         status = "ok"
-        for requested in ([0, 2], None):
-            def stub(I_, bound, n_):
-                return NoneV()
-            I = Interp(project, Config(flags={"stub_func": {EXQ + ".compute_landscape": stub, APQ + ".compute_landscape": stub}}))
+        for requested, lazy in (([0, 2], False), (None, False), (None, True), ([0, 2], True)):
             if kind == "exact":
                 data = [[(sym.Sym(f"x{d}{i}"), sym.Sym(f"y{d}{i}")) for i in range(3)] for d in range(3)]
-                land = ObjV(cls, {"critical_pairs": Seq([Seq([Seq([Sc(a), Sc(b)], "list") for a, b in dd], "list") for dd in data], "list"),
-                                  "max_depth": Sc(sym.Num(2)), "hom_deg": Sc(sym.ZERO)})
+                full = {"critical_pairs": Seq([Seq([Seq([Sc(a), Sc(b)], "list") for a, b in dd], "list") for dd in data], "list"),
+                        "max_depth": Sc(sym.Num(3 if lazy else 2))}
+                empty = {"critical_pairs": Seq([], "list"), "max_depth": Sc(sym.ZERO)}
+                rest = {"hom_deg": Sc(sym.ZERO)}
             else:
                 data = [[sym.Sym(f"v{d}{i}") for i in range(4)] for d in range(3)]
-                land = ObjV(cls, {"values": Seq([Seq([Sc(a) for a in dd], "list") for dd in data], "list"),
-                                  "max_depth": Sc(sym.Num(2)), "hom_deg": Sc(sym.ZERO), "start": Sc(sym.Sym("start")),
-                                  "stop": Sc(sym.Sym("stop")), "num_steps": Sc(sym.Num(4))})
+                full = {"values": Seq([Seq([Sc(a) for a in dd], "list") for dd in data], "list"),
+                        "max_depth": Sc(sym.Num(3 if lazy else 2))}
+                empty = {"values": Seq([], "list"), "max_depth": Sc(sym.ZERO)}
+                rest = {"hom_deg": Sc(sym.ZERO), "start": Sc(sym.Sym("start")), "stop": Sc(sym.Sym("stop")), "num_steps": Sc(sym.Num(4))}
+
+            def stub(I_, bound, n_, full=full):
+                # the computation is not executed: the data are given.  On the lazily built object they appear only now —
+                # what the plotting function read from the object before this call it read from an uncomputed landscape
+                me = bound.get("self")
+                if lazy and isinstance(me, ObjV):
+                    me.attrs.update(full)
+                return NoneV()
+            I = Interp(project, Config(flags={"stub_func": {EXQ + ".compute_landscape": stub, APQ + ".compute_landscape": stub}}))
+            land = ObjV(cls, dict(empty if lazy else full, **rest))
             ax = ObjV(None, {}, tag="axes")
             args = {"landscape": land, "ax": ax}
             if requested is not None:
                 args["depth_range"] = Seq([Sc(sym.Num(k)) for k in requested], "list")
-            tag = f"{name}(depth_range={requested if requested is not None else 'default'})"
+            tag = f"{name}(depth_range={requested if requested is not None else 'default'}" + (", landscape built with compute=False" if lazy else "") + ")"
             try:
                 I.run(q, args)
             except AnalysisError as ex:
